@@ -314,6 +314,12 @@ Qed.
 (* the tile after the lost one: the gap is recorded; immediate NAK mode requests it at once *)
 Definition nakI (a b e : Z) : pdu := PNak hB' 0 e [(a, b)].
 
+(* the loop of lost_segment_handling over a tracker with the one range [a, e) that the received data covers exactly *)
+Ltac rc_one a e :=
+  let E := fresh "Erc" in
+  assert (E : (a <? e) = true) by (apply Z.ltb_lt; lia);
+  cbn [fold_left]; mrun; unfold remove_covered; cbn [fst snd]; rewrite E, Z.max_id, Z.min_id; cbn [andb]; mrun;
+  rewrite remove_one by lia; mrun; clear E.
 Ltac wr Hl := unfold vfs_write; mrun; cbn [e_fs]; unfold fs_write_data; rewrite Hl; cbv iota; mrun.
 Ltac evlog := (destruct (l_ind_seg cd); mrun; apply catch_ok; mrun; unfold lost_segment_handling; mrun).
 
@@ -378,7 +384,7 @@ Proof.
   assert (E2 : (prog <=? a) = false) by (apply Z.leb_gt; lia).
   unfold handle_fd_pdu. unfX. mrun.
   evlog; rewrite E1; mrun; rewrite E2; mrun; rewrite Z.leb_refl; mrun;
-    rewrite remove_one by lia; mrun; wr Hl; reflexivity.
+    rc_one a (a + zlen data); wr Hl; reflexivity.
 Qed.
 
 (* the retransmitted tile during the deferred lost-segment procedure *)
@@ -399,7 +405,7 @@ Proof.
   assert (E4 : (fsz <? a + zlen data) = false) by (apply Z.ltb_ge; lia).
   unfold handle_fd_pdu. unfold dpD. unfX. mrun.
   evlog; rewrite E1; mrun; rewrite E2; mrun; rewrite E3; mrun;
-    rewrite remove_one by lia; mrun; wr Hl; rewrite E4; mrun; reflexivity.
+    rc_one a (a + zlen data); wr Hl; rewrite E4; mrun; reflexivity.
 Qed.
 
 Ltac rw_hfd L :=
